@@ -1067,6 +1067,28 @@ fn run_cached(ir: &str) -> (Option<i32>, Option<i32>, String, String)
 	x
 }
 
+/// Link again, optimise with `opt-14 -O2`, execute: the same output and status 0?
+fn optimised_agrees(files: &[(String, String)], perm: Option<usize>, stdout: &str) -> bool
+{
+	penne::verif::set_import_permutation(perm);
+	let v = alpha::alpha_pipeline(files, alpha::FULL);
+	penne::verif::set_import_permutation(None);
+	let Verdict::Ok { linked: Some(ir), .. } = v
+	else
+	{
+		return true;
+	};
+	match crate::subjects::exec::optimise(&ir)
+	{
+		Ok(opt) =>
+		{
+			let e = run_lli(&opt, 20_000);
+			e.status == Some(0) && e.stdout == stdout
+		}
+		Err(_) => false,
+	}
+}
+
 fn judge(files: &[(String, String)], perm: Option<usize>, expect: &Expect, class: &str, what: &str, w: &mut WorkerCtx)
 {
 	w.result.states += 1;
@@ -1110,6 +1132,11 @@ fn judge(files: &[(String, String)], perm: Option<usize>, expect: &Expect, class
 						w.result.violation(&format!("behaves-differently-from-single-file:{class}"), size, &desc, || {
 							format!("{what} (splice order {perm:?}): linked program gives status {status:?} signal {signal:?}\nstdout {stdout:?}\nexpected {want:?}\nstderr {stderr}\n{}", show())
 						});
+					}
+					else if crate::driver::fnv(what.as_bytes()) % 8 == 0 && !optimised_agrees(files, perm, &stdout)
+					{
+						w.result.outcome(&format!("{class}:accepted:CHANGES UNDER OPTIMISATION"));
+						w.result.violation(&format!("linked-program-changes-under-optimisation:{class}"), size, &desc, || format!("{what}: after `opt-14 -O2` the linked program no longer prints {stdout:?} with status 0 (the emitted IR relies on undefined behaviour)\n{}", show()));
 					}
 					else
 					{
